@@ -65,18 +65,20 @@ class YosysStructuralTranslatorL4(
             _subcomp_ifc_port_gen( d, msb, ifc_id+"__"+str(i), id_, n_dim[1:] )
         return ret
 
-    def _subcomp_ifc_conn_gen( d, cpid, _pid, cwid, _wid, idx, n_dim ):
+    def _subcomp_ifc_conn_gen( d, cpid, _pid, cwid, _wid, idx, n_dim, ifc_idx = "" ):
+      # `ifc_idx` collects the indices of the interface array (outermost
+      # dimension first); they go in front of the index of the port itself.
       if not n_dim:
         pid = cpid + "__" + _pid
         wid = cwid + "__" + _wid
-        return [ { "direction" : d, "pid" : pid, "wid" : wid, "idx" : idx } ]
+        return [ { "direction" : d, "pid" : pid, "wid" : wid, "idx" : ifc_idx + idx } ]
       else:
         ret = []
         for i in range( n_dim[0] ):
           _cpid = f"{cpid}__{i}"
-          _idx = f"[{i}]{idx}"
+          _ifc_idx = f"{ifc_idx}[{i}]"
           ret += \
-            _subcomp_ifc_conn_gen( d, _cpid, _pid, cwid, _wid, _idx, n_dim[1:] )
+            _subcomp_ifc_conn_gen( d, _cpid, _pid, cwid, _wid, idx, n_dim[1:], _ifc_idx )
         return ret
 
     ifc_n_dim = ifc_array_type["n_dim"]
@@ -169,7 +171,9 @@ class YosysStructuralTranslatorL4(
           ret += _subcomp_port_gen( obj[i], c_id+"__"+str(i), n_dim[1:], port_decls )
         return ret
 
-    def _subcomp_conn_gen( d, cpid, _pid, cwid, _wid, idx, n_dim ):
+    def _subcomp_conn_gen( d, cpid, _pid, cwid, _wid, idx, n_dim, c_idx = "" ):
+      # `c_idx` collects the indices of the component array (outermost
+      # dimension first); they go in front of the interface / port indices.
       if d.startswith( "input" ):
         template = "assign {pid} = {wid}{idx};"
       else:
@@ -177,13 +181,14 @@ class YosysStructuralTranslatorL4(
       if not n_dim:
         pid = f"{cpid}__{_pid}"
         wid = f"{cwid}__{_wid}"
+        idx = f"{c_idx}{idx}"
         return [ template.format( **locals() ) ]
       else:
         ret = []
         for i in range( n_dim[0] ):
           _cpid = f"{cpid}__{i}"
-          _idx = f"[{i}]{idx}"
-          ret += _subcomp_conn_gen( d, _cpid, _pid, cwid, _wid, _idx, n_dim[1:] )
+          _c_idx = f"{c_idx}[{i}]"
+          ret += _subcomp_conn_gen( d, _cpid, _pid, cwid, _wid, idx, n_dim[1:], _c_idx )
         return ret
 
     s.check_decl( c_id, f"Note: {c_id} is a sub-component of {m}" )
